@@ -128,12 +128,33 @@ def helpers(np):
 
     def arr_eq(a, b):
         return np.array_equal(np.asarray(a), np.asarray(b))
-    return dict(iff=iff, is_none=is_none, same_object=same_object, is_nan=is_nan, is_inf=is_inf,
+    def is_view(v, base, lo, hi):
+        if not isinstance(v, np.ndarray) or not isinstance(base, np.ndarray):
+            return False
+        if v.ndim != 1 or v.shape[0] != hi - lo:
+            return False
+        if hi == lo:
+            return True
+        off = v.__array_interface__['data'][0] - base.__array_interface__['data'][0]
+        return bool(np.shares_memory(v, base) and off == lo * base.strides[0] and
+                    v.strides[0] == base.strides[0])
+
+    def approx(a, b, tol=1e-9):
+        a, b = complex(a), complex(b)
+        return abs(a - b) <= tol * (1 + abs(a) + abs(b))
+    def is_scalar(x):
+        return np.isscalar(x)
+
+    def is_vector(x):
+        return hasattr(x, '_data') and hasattr(x, 'asarray')
+    return dict(approx=approx, is_scalar=is_scalar, is_vector=is_vector, is_view=is_view, iff=iff, is_none=is_none, same_object=same_object, is_nan=is_nan, is_inf=is_inf,
                 fp_finite=fp_finite, Sum=Sum, arr_eq=arr_eq, np=np)
 
 
 def load_function(target, override=None):
     relpath, qual = target.split('::')
+    if relpath.startswith('verif:'):
+        relpath = relpath[6:]
     modname = relpath[:-3].replace('/', '.')
     mod = importlib.import_module(modname)
     if override and override.get('relpath') == relpath:
@@ -262,15 +283,24 @@ def main():
     except Exception:
         om = None
     job = json.load(sys.stdin)
-    res = []
-    c = find_contract(job['module'], job['contract'])
-    for vals in job['cases']:
+    jobs = job['jobs'] if 'jobs' in job else [job]
+    allres = []
+    for jb in jobs:
+        res = []
         try:
-            r = run_case(c, decode(vals), np, om, job.get('override'))
-        except Exception as e:
-            r = {'error': traceback.format_exc()}
-        res.append(r)
-    json.dump(res, sys.stdout, default=str)
+            c = find_contract(jb['module'], jb['contract'])
+        except Exception:
+            allres.append([{'error': traceback.format_exc()}] * len(jb['cases']))
+            continue
+        for vals in jb['cases']:
+            try:
+                r = run_case(c, decode(vals), np, om, jb.get('override'))
+            except Exception as e:
+                r = {'error': traceback.format_exc()}
+            res.append(r)
+        allres.append(res)
+    sys.stdout.write('\n')
+    json.dump(allres if 'jobs' in job else allres[0], sys.stdout, default=str)
 
 
 if __name__ == '__main__':
